@@ -1,0 +1,23 @@
+//go:build verif
+
+package font
+
+import (
+	"bytes"
+	"sort"
+)
+
+// Verification hooks for the bounded-work guards (C02). Add-only.
+
+// VerifParseCmapFormat4 runs parseCmapFormat4 on a format 4 cmap subtable (the bytes after
+// the format field) and returns the codes entered into the table, ascending.
+func VerifParseCmapFormat4(subtable []byte) ([]int, error) {
+	tt := &TrueTypeFont{cmapTable: &CMapTable{format: 4, encoding: make(map[rune]uint16)}}
+	err := tt.parseCmapFormat4(bytes.NewReader(subtable))
+	codes := make([]int, 0, len(tt.cmapTable.encoding))
+	for r := range tt.cmapTable.encoding {
+		codes = append(codes, int(r))
+	}
+	sort.Ints(codes)
+	return codes, err
+}
